@@ -89,6 +89,7 @@ type ctlSys struct {
 	refSvcs       map[string]string      // service objects (user part) at that point
 	refKind       string                 // "quiescent" | "crash"
 	lastUser      verifrt.Event
+	burst         int // user events applied since the last delivery
 	lastUserDesc  string
 	gateViolation string
 	panicMsg      string
@@ -324,6 +325,9 @@ func (s *ctlSys) Key() string {
 	var b strings.Builder
 	b.WriteString(s.storeDump())
 	fmt.Fprintf(&b, "svcQ=%v poolQ=%v\n", s.svcQ.Keys(), s.poolQ.Keys())
+	if burstMode && s.burst == 1 && !s.quiescent() {
+		b.WriteString("user-event-may-follow\n")
+	}
 	b.WriteString(s.c.ips.VerifDump())
 	fmt.Fprintf(&b, "cpools=%s\n", controllers.VerifPoolsDump(s.c.pools))
 	fmt.Fprintf(&b, "initialLoad=%v prcfg=%s\n", s.sr.VerifInitialLoadPerformed(), s.pr.VerifCurrentConfig())
@@ -369,8 +373,10 @@ func (s *ctlSys) materialise(slot, variant int) *v1.Service {
 	return svc
 }
 
-// userEventsAllowedWhileSettling is set by the thorough tier.
-var userEventsAllowedWhileSettling = false
+// burstMode: a second user event may arrive right after a user event, before anything of the first has been
+// delivered (two API changes observed together: e.g. a delete and a create before the controller runs).
+// User events are otherwise offered at quiescent states only.
+var burstMode = true
 var faultMenu = false
 var crashMenu = false
 
@@ -398,7 +404,7 @@ func (s *ctlSys) Enabled() []verifrt.Event {
 		}
 		evs = append(evs, verifrt.Event{Kind: "crash", Fault: true})
 	}
-	if s.quiescent() || userEventsAllowedWhileSettling {
+	if s.quiescent() || (burstMode && s.burst == 1) {
 		svcs := s.services()
 		for i, sl := range s.u.Slots {
 			cur := svcs[sl.Key()]
@@ -468,6 +474,11 @@ func (s *ctlSys) Apply(ev verifrt.Event) {
 			s.snapshotRef("quiescent")
 		}
 		s.lastUser = ev
+	}
+	if ev.User && ev.Kind != "svc" {
+		s.burst++
+	} else {
+		s.burst = 0
 	}
 	switch ev.Kind {
 	case "set":
